@@ -56,10 +56,34 @@ def run(ctx):
     P.confirm(ctx, jit, jrecs, jbad, PREF, lambda cs: P.run_pipe(ctx, cs, race=True, shards=1))
     ctx.extra["race_detector_runs"] = len(jit)
     ctx.tick("race_runs")
+    big_blocks(ctx)
     ctx.rule = ("evaluations = runs of the real scanner (forced TLC behaviours + random-walk schedules + jitter/-race runs); "
                 "distinct = distinct (configuration, realised schedule) pairs; non-trivial = at least three goroutines took steps")
     ctx.assumptions = ["hook granularity: between two yield points a goroutine only does local work (race-free code)",
                        "races on memory the hooks do not mention are only seen by the Go race detector on the executed runs"]
+
+
+def big_blocks(ctx):
+    """Real-size blocks (the decoder's 8000-entry object slice and the 10-slot channel budget are exceeded): every decoder
+    count against the single-decoder scan, judged by PbfBigJudge.tla."""
+    q = ctx.quick()
+    D = lambda n: {"k": "data", "n": n}
+    shapes = [[D(8000), D(8001), D(1), D(9000)], [D(16001), D(0), D(7999), D(12000), D(3)]]
+    if not q:
+        shapes += [[D(8000)] * 12, [D(25000), D(1), D(1), D(8192), D(8193), D(0), D(8000), D(2)], [D(4099)] * 23]
+    cases = [{"kind": "big", "cfg": {"n": 1, "blocks": b, "endkind": "eof", "hdr": h}, "procs": ([1, 2, 3, 11] if q else [1, 2, 3, 4, 5, 7, 11, 16, 32]),
+              "variant": v} for b in shapes for h in ("ok", "none") for v in ((0, 1) if q else (0, 1, 2, 3))]
+    recs = P.run_pipe(ctx, cases, shards=min(8, len(cases)))
+    slim = [{"big": r["big"]} for r in recs]
+    bad = vlib.tlc_judge(ctx, "PbfBigJudge", "PbfBigJudge.cfg", slim, shards=1)
+    for c in cases:
+        ctx.note_case(["big", c["cfg"], c["variant"]], nontrivial=True)
+    for i, why, kf in bad[:3]:
+        again = P.run_pipe(ctx, [cases[i]], shards=1)
+        if vlib.tlc_judge(ctx, "PbfBigJudge", "PbfBigJudge.cfg", [{"big": again[0]["big"]}], shards=1):
+            ctx.report_bad(cases[i], why, kf, {"property": "C02", "case": cases[i], "big": recs[i]["big"], "why": why})
+    ctx.extra["big_block_scans"] = sum(len(c["procs"]) for c in cases)
+    ctx.tick("big_blocks")
 
 
 def jitter_cases(ctx, n):
